@@ -32,18 +32,18 @@ FLOORS = {"C05.R1": 60, "C05.R2": 12, "C05.R3": 6, "C05.R4": 5, "C05.R5": 7, "C0
 
 def r1_ability(ctx):
     """R1-R4 for the two ability decoders only (re-used by C09/C19: the model is built from these records)."""
+    r7(ctx, only=("ac_ability",))
     for key, spec in T.STATUS.items():
         if "ac_ability" in str(key):
             check_decoder(ctx, key, spec)
-    r7(ctx, only=("ac_ability",))
 
 
 def run(ctx):
+    r7(ctx)  # first: its aliasing clause decides constructs that take the bit domain out of its fragment
     for key, spec in T.STATUS.items():
         check_decoder(ctx, key, spec)
     r5(ctx)
     r6(ctx)
-    r7(ctx)
 
 
 def r7(ctx, only=None):
@@ -110,6 +110,75 @@ def r7(ctx, only=None):
                             stale.append((v, n))
                 lab = f"{m.name.split('pyairtouch.')[1]}.{qual.split('.')[0]}:loop@{qual.split('.')[-1]}"
                 ctx.check(not stale, R, f"{lab}:per-record-state-is-fresh", m, (stale[0][1].ast if stale else loop_ast), "every local a record is built from is assigned in the same iteration on every path (nothing is carried over from the previous record)", "; ".join(f"`{v}` can reach the record built at line {n.lineno} with the value of an earlier iteration" for v, n in stale[:3]))
+    # nor is anything carried over through a module-level container: a decoder that fills a dict / list / set defined at module
+    # level (directly or through a local alias) hands the same object to every record and every frame
+    for m in ctx.repo.modules.values():
+        if not (m.name.startswith("pyairtouch.at4.comms.") or m.name.startswith("pyairtouch.at5.comms.") or m.name == "pyairtouch.comms.encoding"):
+            continue
+        if only is not None and not any(o in m.name for o in only):
+            continue
+        # the codec objects themselves are shared (one instance per message type in the registry): a buffer or container kept on
+        # `self` and filled in place by encode()/decode() is the same kind of shared state
+        own = []
+        for cname, ci in m.classes.items():
+            if not (cname.endswith("Encoder") or cname.endswith("Decoder")):
+                continue
+            for mname, fnode in ci.methods.items():
+                if mname == "__init__":
+                    continue
+                for x in walk_no_nested(fnode):
+                    tgt = None
+                    if isinstance(x, ast.Call) and isinstance(x.func, ast.Attribute) and x.func.attr == "pack_into" and x.args:
+                        tgt = x.args[0]
+                    elif isinstance(x, ast.Call) and isinstance(x.func, ast.Attribute) and x.func.attr in ("update", "append", "add", "extend", "setdefault", "insert", "clear"):
+                        tgt = x.func.value
+                    elif isinstance(x, (ast.Assign, ast.AugAssign)):
+                        for t in (x.targets if isinstance(x, ast.Assign) else [x.target]):
+                            if isinstance(t, ast.Subscript):
+                                tgt = t.value
+                    if tgt is None:
+                        continue
+                    # follow one local alias (`buf = self._buffer`)
+                    if isinstance(tgt, ast.Name):
+                        al = [y.value for y in walk_no_nested(fnode) if isinstance(y, ast.Assign) and len(y.targets) == 1 and isinstance(y.targets[0], ast.Name) and y.targets[0].id == tgt.id]
+                        if len(al) == 1:
+                            tgt = al[0]
+                    if (dotted(tgt) or "").startswith("self."):
+                        own.append((f"{cname}.{mname}", dotted(tgt), x))
+        ctx.check(not own, R, f"{m.name.split('pyairtouch.')[1]}:codec-objects-hold-no-buffers", m, (own[0][2] if own else None), "encode()/decode() build their result in fresh objects: nothing kept on the shared codec instance is filled in place", "; ".join(f"{q} writes into {a_} (line {x.lineno}): bytes already handed out change when the next message is encoded" for q, a_, x in own[:3])) if (own or any(c.endswith("Encoder") or c.endswith("Decoder") for c in m.classes)) else None
+        mutable_globals = set()
+        for gname, gnode in m.assign_nodes.items():
+            v = getattr(gnode, "value", None)
+            if isinstance(v, (ast.Dict, ast.List, ast.Set, ast.DictComp, ast.ListComp, ast.SetComp)) or (isinstance(v, ast.Call) and dotted(v.func) in ("dict", "list", "set", "bytearray", "collections.defaultdict", "defaultdict")):
+                mutable_globals.add(gname)
+        if not mutable_globals:
+            continue
+        shared = []
+        for qual, fnode in iter_functions(m):
+            if ".<locals>." in qual:
+                continue
+            alias = {g_: g_ for g_ in mutable_globals}
+            for x in walk_no_nested(fnode):
+                if isinstance(x, (ast.Assign, ast.AnnAssign)) and isinstance(getattr(x, "value", None), ast.Name) and x.value.id in mutable_globals:
+                    for t in (x.targets if isinstance(x, ast.Assign) else [x.target]):
+                        if isinstance(t, ast.Name):
+                            alias[t.id] = x.value.id
+            local_rebinds = {t.id for x in walk_no_nested(fnode) if isinstance(x, (ast.Assign, ast.AnnAssign)) for t in (x.targets if isinstance(x, ast.Assign) else [x.target]) if isinstance(t, ast.Name) and not (isinstance(getattr(x, "value", None), ast.Name) and x.value.id in mutable_globals)}
+            for x in walk_no_nested(fnode):
+                tgt = None
+                if isinstance(x, (ast.Assign, ast.AugAssign, ast.AnnAssign)):
+                    for t in (x.targets if isinstance(x, ast.Assign) else [x.target]):
+                        if isinstance(t, ast.Subscript) and isinstance(t.value, ast.Name):
+                            tgt = t.value.id
+                elif isinstance(x, ast.Call) and isinstance(x.func, ast.Attribute) and isinstance(x.func.value, ast.Name) and x.func.attr in ("update", "append", "add", "extend", "setdefault", "pop", "clear", "insert", "remove", "discard"):
+                    tgt = x.func.value.id
+                elif isinstance(x, ast.Delete):
+                    for t in x.targets:
+                        if isinstance(t, ast.Subscript) and isinstance(t.value, ast.Name):
+                            tgt = t.value.id
+                if tgt is not None and tgt in alias and tgt not in (local_rebinds - set(mutable_globals)):
+                    shared.append((qual, alias[tgt], x))
+        ctx.check(not shared, R, f"{m.name.split('pyairtouch.')[1]}:no-shared-mutable-state", m, (shared[0][2] if shared else None), "codecs build a new container for every record: no dict / list / set defined at module level is modified while decoding or encoding", "; ".join(f"{q} modifies the module-level `{g_}` at line {x.lineno}: every record (and every later frame) shares that one object" for q, g_, x in shared[:3]))
     if only is None:
         ctx.require(n_loops >= 6, f"C05.R7: only {n_loops} record loops found in the decoders")
 
